@@ -453,7 +453,10 @@ func c10CheckNoOp(v float64) string {
 }
 
 func c10Class(c *mc.Check, maxTok int) {
-	toks := []string{"B", "MB", "bytes", "ns", "op", "KB", "b", "/", "*", "-", " "}
+	toks := []string{"B", "MB", "bytes", "ns", "op", "KB", "b", "/", "*", "-", " ",
+		// a multi-byte space is a separator; a letter whose UTF-8 encoding ends in the byte 0xA0 / 0x85 (which are spaces as
+		// code points) is part of its word
+		"\u2003", "à", "Å"}
 	replay := func(raw json.RawMessage) string {
 		var u string
 		json.Unmarshal(raw, &u)
